@@ -11,7 +11,8 @@ TEXT = ("M1: the array merge never removes: no call with a removing effect (remo
         "path through the `not found` arm of the position search performs exactly one insert of the current element "
         "before the next iteration, and no insert is reachable from the `found` arm (so, for duplicate-free inputs, every "
         "element of either side is present exactly once). M3: the leaf fold calls the merge for every element of the "
-        "complete leaf set with the returned base as destination and has no early exit other than error propagation. "
+        "complete leaf set with the returned base as destination, the destination starts as the order at the requested "
+        "(winning) revision, and the loop has no early exit other than error propagation. "
         "M4: in read an object enters the reconstruction map only under `!winner.is_deleted()`, and unflatten consumes "
         "each referenced object with HashMap::remove (never get) and pushes an array element only on the found edge. "
         "Does not decide the relative-order clauses (they depend on where pivots fall, i.e. on values).")
@@ -137,6 +138,19 @@ def run(facts, res):
                 whole = "get_leafs" in names and not (set(names) & {"take", "skip", "filter", "step_by", "take_while", "skip_while", "rev"})
             src = du.operand_term(t.args[0], 16)
             per_leaf = contains_call(src, R.name("rebuilder")) and contains_call(src, "next")
+            # the fold starts from the order at the revision the caller asked for (the winner, whose relative order is kept):
+            # the destination's value before the loop derives from the rebuilder applied to a parameter of this function
+            seeded = False
+            dd = du.operand_term(t.args[1], 30)
+            for x in walk(dd):
+                if x[0] == "call" and callee_name(x) == R.name("rebuilder") and len(x[2]) >= 2 and \
+                        any(y[0] == "param" for y in walk(x[2][1])) and not contains_call(x[2][1], "next"):
+                    seeded = True
+            res.instance("M3", "%s: the fold's destination starts as the order at the requested (winning) revision: %s" % (b.path, seeded), b.loc(t.line))
+            if not seeded:
+                res.violation("M3", "%s|fold-not-seeded-with-base" % b.path,
+                              "%s folds the leaves into a destination that does not start as the order at the base (winning) revision: the merged array would "
+                              "follow the order of whichever leaf is folded first instead of the winner's" % b.path, b.loc(t.line))
             res.instance("M3", "%s: merge_arrays(order of each leaf (%s), &mut base) over the whole leaf set (%s); base is returned (%s); early exits: %d" % (
                 b.path, per_leaf, whole, returned, len(early)), b.loc(t.line))
             if not (per_leaf and whole and returned and not early):
